@@ -17,15 +17,19 @@ package syncx_test
 // the virtual instant. Oracles are invariants over that history.
 
 import (
+	"errors"
 	"fmt"
 	"runtime"
 	"sort"
+	"strconv"
+	"strings"
 	"sync"
 	"sync/atomic"
 	"testing"
 	"time"
 
 	"github.com/anishathalye/porcupine"
+	"github.com/gotid/god/lib/errorx"
 	"pgregory.net/rapid"
 	"verif.local/kit"
 )
@@ -42,6 +46,7 @@ type c18Op struct {
 	H   int    `json:"h,omitempty"`   // virtual ms held (inside callback / between acquire and release)
 	A   int    `json:"a,omitempty"`   // extra argument (fail flag, timeout ms, ...)
 	M   int    `json:"m,omitempty"`   // instance of the primitive the call goes to (0 or 1)
+	E   int    `json:"e,omitempty"`   // kind of error VALUE a failing callback / closer returns (c18MakeErr)
 }
 
 // c18Inst: several instances of one primitive live in one process (and one
@@ -148,18 +153,91 @@ type c18Exec struct {
 	Pan        bool // the callback panicked
 }
 
-type c18TagErr struct{ id int }
+// Error VALUES are a generated dimension: primitives that hand on, aggregate
+// or compare callback errors must cope with every kind of error value,
+// including several callbacks returning the very same value and dynamic types
+// that are not comparable (== on two of them panics at run time). Every value
+// carries its execution id after a trailing '#', so that the oracle can
+// recognise it without comparing errors itself.
+type c18TagErr struct{ id int } // comparable struct
 
-func (e c18TagErr) Error() string { return fmt.Sprintf("c18 error of execution %d", e.id) }
+func (e c18TagErr) Error() string { return fmt.Sprintf("c18 error of execution #%d", e.id) }
 
+type c18SliceErr struct { // NOT comparable
+	id    int
+	trail []int
+}
+
+func (e c18SliceErr) Error() string { return fmt.Sprintf("c18 slice error %v #%d", e.trail, e.id) }
+
+type c18MapErr struct { // NOT comparable
+	id   int
+	info map[string]int
+}
+
+func (e c18MapErr) Error() string { return fmt.Sprintf("c18 map error (%d fields) #%d", len(e.info), e.id) }
+
+var c18Sentinel = errors.New("c18 sentinel shared by several callbacks #0")
+
+const (
+	c18ErrNil        = 0
+	c18ErrNew        = 1 // errors.New, a fresh pointer
+	c18ErrSentinel   = 2 // one package-level value returned by several callbacks
+	c18ErrWrapped    = 3 // fmt.Errorf("%w") around the sentinel
+	c18ErrStruct     = 4 // comparable struct
+	c18ErrSlice      = 5 // struct with a slice: not comparable
+	c18ErrComposite  = 6 // errorx.BatchError.Err() holding two errors: errorx's own slice type, not comparable
+	c18ErrMap        = 7 // struct with a map: not comparable
+	c18ErrKindsCount = 8
+)
+
+func c18MakeErr(kind, id int) error {
+	switch kind {
+	case c18ErrNil:
+		return nil
+	case c18ErrNew:
+		return errors.New(fmt.Sprintf("c18 plain error #%d", id))
+	case c18ErrSentinel:
+		return c18Sentinel
+	case c18ErrWrapped:
+		return fmt.Errorf("c18 wrapped (%w) #%d", c18Sentinel, id)
+	case c18ErrSlice:
+		return c18SliceErr{id: id, trail: []int{id, id}}
+	case c18ErrComposite:
+		var be errorx.BatchError
+		be.Add(errors.New("c18 first of two"), c18TagErr{id})
+		return be.Err()
+	case c18ErrMap:
+		return c18MapErr{id: id, info: map[string]int{"id": id}}
+	}
+	return c18TagErr{id}
+}
+
+// c18ErrKind draws the kind of a failing callback's error value; withShared
+// allows the shared sentinel (which cannot carry an execution id).
+func c18ErrKind(rt *rapid.T, withShared bool) int {
+	kinds := []int{c18ErrNew, c18ErrWrapped, c18ErrStruct, c18ErrSlice, c18ErrSlice, c18ErrComposite, c18ErrComposite, c18ErrMap}
+	if withShared {
+		kinds = append(kinds, c18ErrSentinel, c18ErrSentinel)
+	}
+	return rapid.SampledFrom(kinds).Draw(rt, "errkind")
+}
+
+// c18ErrTag: 0 for nil, the id after the last '#' of the message, -1 otherwise.
 func c18ErrTag(err error) int {
 	if err == nil {
 		return 0
 	}
-	if te, ok := err.(c18TagErr); ok {
-		return te.id
+	msg := err.Error()
+	i := strings.LastIndexByte(msg, '#')
+	if i < 0 {
+		return -1
 	}
-	return -1
+	n, convErr := strconv.Atoi(msg[i+1:])
+	if convErr != nil {
+		return -1
+	}
+	return n
 }
 
 func c18Sleep(msec int) {
